@@ -896,6 +896,12 @@ class FedSim(object):
                     elif p.get("enc_arg") == "none":
                         kw["encrypt_assertion"] = None      # spelled out as "not decided by the caller"
                     # (otherwise the application leaves the argument out: the configuration decides)
+                    if mkrng(ev.get("sub") or (1000 * ev["f"] + 7), "farg").chance(0.2):
+                        # the IdP application uses the documented `farg` option to set one optional field of the
+                        # bearer confirmation itself (its Address); the library completes InResponseTo and Recipient
+                        kw["farg"] = {"assertion": {"subject": {"subject_confirmation": {
+                            "subject_confirmation_data": {"address": "10.0.0.7"}}}}}
+                        self.count("probe.farg-partial-confirmation-data")
                     if (sign_r or sign_a) and srv.sec.cert_handler.generate_cert():
                         self.count("probe.rolling-cert-branch")
                         if kw.get("pefim"):
@@ -1245,9 +1251,15 @@ class FedSim(object):
                 # the application knows the peer's network address and passes it on
                 conv["remote_addr"] = ev["conv"]["remote_addr"]
                 self.count("probe.conv-remote-addr")
+            if mkrng(ev.get("sub", 0), "convshape").chance(0.35):
+                # the application passes on the peer's address and nothing else (its own endpoints are known to the
+                # library from the configuration): conversation information is supplied all the same
+                del conv["entity_id"]
+                self.count("probe.conv-address-only")
         w = self.world
         rec = {"f": ev["f"], "r": ev.get("r", 0), "to": to, "via": via, "via_binding": via_binding,
                "msg_binding": msg["binding"], "mut": mutdesc, "conv": bool(conv),
+               "conv_addr_only": bool(conv) and "entity_id" not in conv,
                "now": int(w.clock.now(to)), "now_f": w.clock.now(to),
                "outstanding": sorted(sp.outstanding.keys()), "value": value,
                "asked": msg.get("asked"), "tf": ev.get("tf"), "dup": ev.get("dup", False), "req_keys": ev.get("req_keys"),
